@@ -255,3 +255,54 @@ func Name(o osm.Object) string {
 	}
 	return fmt.Sprintf("%T", o)
 }
+
+// AppendIndependence checks that decoded objects do not share memory: it
+// appends marker entries to every slice of every object (in the order given)
+// and then requires each object to read exactly as before plus its own
+// markers. An append to one returned object must never show up in another.
+// The objects are modified (markers stay appended). Returns "" or a
+// description of the first difference.
+func AppendIndependence(objs []osm.Object) string {
+	before := make([]string, len(objs))
+	for i, o := range objs {
+		before[i] = Snap(o)
+	}
+	for _, o := range objs {
+		switch x := o.(type) {
+		case *osm.Node:
+			x.Tags = append(x.Tags, osm.Tag{Key: "~marker", Value: "~n"})
+		case *osm.Way:
+			x.Tags = append(x.Tags, osm.Tag{Key: "~marker", Value: "~w"})
+			x.Nodes = append(x.Nodes, osm.WayNode{ID: -77}, osm.WayNode{ID: -78})
+		case *osm.Relation:
+			x.Tags = append(x.Tags, osm.Tag{Key: "~marker", Value: "~r"})
+			x.Members = append(x.Members, osm.Member{Type: osm.TypeNode, Ref: -79, Role: "~marker"})
+		}
+	}
+	for i, o := range objs {
+		// strip the object's own markers again (without touching memory)
+		var now string
+		switch x := o.(type) {
+		case *osm.Node:
+			c := *x
+			c.Tags = c.Tags[:len(c.Tags)-1]
+			now = Snap(&c)
+		case *osm.Way:
+			c := *x
+			c.Tags = c.Tags[:len(c.Tags)-1]
+			c.Nodes = c.Nodes[:len(c.Nodes)-2]
+			now = Snap(&c)
+		case *osm.Relation:
+			c := *x
+			c.Tags = c.Tags[:len(c.Tags)-1]
+			c.Members = c.Members[:len(c.Members)-1]
+			now = Snap(&c)
+		default:
+			now = Snap(o)
+		}
+		if now != before[i] {
+			return fmt.Sprintf("object %d changed when marker entries were appended to the slices of the returned objects (shared memory between results):\n was %s\n now %s", i, before[i], now)
+		}
+	}
+	return ""
+}
